@@ -45,6 +45,8 @@ enum Sel {
 enum Body {
     Nothing,
     Event,
+    /// the closure panics; the caller catches it
+    Panic,
     NewChild { to: u8, cs: u8 },
     CurrentTo { to: u8 },
 }
@@ -64,7 +66,7 @@ enum Op {
     Current { t: u8, to: u8 },
     OrCurrent { t: u8, slot: u8 },
     Event { t: u8 },
-    Instrument { t: u8, slot: u8, fut: u8, lib: bool, ready_after: u8, emits: bool },
+    Instrument { t: u8, slot: u8, fut: u8, lib: bool, ready_after: u8, emits: bool, #[serde(default)] panics: bool },
     InCurrentSpan { t: u8, fut: u8, lib: bool, ready_after: u8, emits: bool },
     Poll { t: u8, fut: u8 },
     DropFuture { t: u8, fut: u8 },
@@ -73,6 +75,9 @@ enum Op {
 #[derive(Clone, Debug, Serialize, Deserialize)]
 struct Case {
     ops: Vec<Op>,
+    /// the collectors hand out a fresh span id from every `clone_span`
+    #[serde(default)]
+    fresh_ids: bool,
 }
 
 // ---- real-side state -----------------------------------------------------------------
@@ -100,12 +105,16 @@ impl Drop for TState {
 struct TestFut {
     remaining: u8,
     emits: bool,
+    panics: bool,
 }
 impl Future for TestFut {
     type Output = ();
     fn poll(mut self: Pin<&mut Self>, _: &mut Context<'_>) -> Poll<()> {
         if self.emits {
             tracing::info!(target: "c03", "poll");
+        }
+        if self.panics {
+            panic!("scripted panic inside the instrumented future's poll");
         }
         if self.remaining == 0 {
             Poll::Ready(())
@@ -196,6 +205,7 @@ struct MFut {
     remaining: u8,
     emits: bool,
     done: bool,
+    panics: bool,
 }
 struct Model {
     slots: Vec<Option<H>>,
@@ -204,6 +214,7 @@ struct Model {
     futs: Vec<Option<MFut>>,
     default: Vec<Sel>,
     next: [u64; 2],
+    fresh: bool,
     stacks: [Vec<Vec<u64>>; 2],
     /// expected calls per collector for the current op
     want: [Vec<Exp>; 2],
@@ -235,6 +246,26 @@ impl Model {
             self.want[col].push(exp(Kind::TryClose, id, t));
         }
     }
+    /// a new handle to the same span: clone_span(id) is expected; in fresh-id mode the new
+    /// handle gets the next id of that collector
+    fn clone_handle(&mut self, h: H, t: usize) -> H {
+        match h {
+            H::On { col, id } => {
+                let new = if self.fresh {
+                    let n = ((col as u64 + 1) << 32) | self.next[col];
+                    self.next[col] += 1;
+                    n
+                } else {
+                    id
+                };
+                let mut e = exp(Kind::CloneSpan, id, t);
+                e.id2 = new;
+                self.want[col].push(e);
+                H::On { col, id: new }
+            }
+            other => other,
+        }
+    }
     fn event(&mut self, t: usize, msg: &str) {
         if let Some(col) = Self::col_of(self.default[t]) {
             let mut e = exp(Kind::Event, 0, t);
@@ -246,10 +277,7 @@ impl Model {
     fn current(&mut self, t: usize) -> H {
         match Self::col_of(self.default[t]) {
             Some(col) => match self.stacks[col][t].last().copied() {
-                Some(id) => {
-                    self.want[col].push(exp(Kind::CloneSpan, id, t));
-                    H::On { col, id }
-                }
+                Some(id) => self.clone_handle(H::On { col, id }, t),
                 None => H::Disabled,
             },
             None => H::Disabled,
@@ -296,6 +324,8 @@ fn run_case(case: &Case) -> Outcome {
     let db = Dispatch::new(cb);
     sa.take();
     sb.take();
+    sa.fresh_clone_ids.store(case.fresh_ids, std::sync::atomic::Ordering::SeqCst);
+    sb.fresh_clone_ids.store(case.fresh_ids, std::sync::atomic::Ordering::SeqCst);
     let shared: [Arc<Shared>; 2] = [sa, sb];
     let disp = [da, db];
 
@@ -309,6 +339,7 @@ fn run_case(case: &Case) -> Outcome {
         futs: (0..NFUT).map(|_| None).collect(),
         default: vec![Sel::NoDefault; NT],
         next: [1, 1],
+        fresh: case.fresh_ids,
         stacks: [vec![vec![]; NT], vec![vec![]; NT]],
         want: [vec![], vec![]],
     };
@@ -361,7 +392,7 @@ fn run_case(case: &Case) -> Outcome {
                 Op::Record { t, slot, declared, v } => Op::Record { t, slot: o(slot), declared, v },
                 Op::FollowsFrom { t, slot, other } => Op::FollowsFrom { t, slot: o(slot), other: o(other) },
                 Op::OrCurrent { t, slot } => Op::OrCurrent { t, slot: o(slot) },
-                Op::Instrument { t, slot, fut, lib, ready_after, emits } => Op::Instrument { t, slot: o(slot), fut, lib, ready_after, emits },
+                Op::Instrument { t, slot, fut, lib, ready_after, emits, panics } => Op::Instrument { t, slot: o(slot), fut, lib, ready_after, emits, panics },
                 Op::Poll { t, fut } => Op::Poll { t, fut: fo(fut) },
                 Op::DropFuture { t, fut } => Op::DropFuture { t, fut: fo(fut) },
                 other => other,
@@ -442,14 +473,17 @@ fn run_case(case: &Case) -> Outcome {
                 } else {
                     vacate!(t, s);
                     let h = m.slots[f].unwrap();
-                    if let H::On { col, id } = h {
-                        m.want[col].push(exp(Kind::CloneSpan, id, t));
+                    if let H::On { id, .. } = h {
                         n_clone += 1;
                         if creator_thread.get(&id) != Some(&t) {
                             cross_thread = true;
                         }
                     }
-                    m.slots[s] = Some(h);
+                    let nh = m.clone_handle(h, t);
+                    if let H::On { id, .. } = nh {
+                        creator_thread.entry(id).or_insert(t);
+                    }
+                    m.slots[s] = Some(nh);
                     let sl = slots.clone();
                     st.run(t, move |_| {
                         let c = Span::clone(sl.lock().unwrap()[f].as_ref().unwrap());
@@ -584,7 +618,7 @@ fn run_case(case: &Case) -> Outcome {
                         }
                         m.enter(h, t);
                         match body {
-                            Body::Nothing => {}
+                            Body::Nothing | Body::Panic => {}
                             Body::Event => m.event(t, "inscope"),
                             Body::NewChild { to, cs } => {
                                 let c = m.new_span(t, cs, Parent::Contextual);
@@ -605,8 +639,13 @@ fn run_case(case: &Case) -> Outcome {
                         let sl = slots.clone();
                         st.run(t, move |_| {
                             let sp = sl.lock().unwrap()[s].clone().unwrap();
+                            if body == Body::Panic {
+                                let r = std::panic::catch_unwind(std::panic::AssertUnwindSafe(|| sp.in_scope(|| panic!("scripted panic inside in_scope"))));
+                                assert!(r.is_err());
+                                return;
+                            }
                             sp.in_scope(|| match body {
-                                Body::Nothing => {}
+                                Body::Nothing | Body::Panic => {}
                                 Body::Event => tracing::info!(target: "c03", "inscope"),
                                 Body::NewChild { to, cs } => {
                                     let c = make_span(cs, 0, None);
@@ -728,19 +767,19 @@ fn run_case(case: &Case) -> Outcome {
                 m.event(t, "plain");
                 st.run(t, |_| tracing::info!(target: "c03", "plain"))
             }
-            Op::Instrument { t, slot, fut, lib, ready_after, emits } => {
+            Op::Instrument { t, slot, fut, lib, ready_after, emits, panics } => {
                 let (t, s, f) = (t as usize % NT, slot as usize % NSLOT, fut as usize % NFUT);
                 if m.slots[s].is_none() || !free(&m, s) || m.futs[f].is_some() {
                     skipped = true;
                     Ok(())
                 } else {
                     let h = m.slots[s].take().unwrap();
-                    m.futs[f] = Some(MFut { h, remaining: ready_after % 4, emits, done: false });
+                    m.futs[f] = Some(MFut { h, remaining: ready_after % 4, emits, done: false, panics });
                     let (sl, fl) = (slots.clone(), futs.clone());
                     st.run(t, move |_| {
                         let sp = sl.lock().unwrap()[s].take().unwrap();
                         let sp = Arc::try_unwrap(sp).ok().expect("unique");
-                        let inner = TestFut { remaining: ready_after % 4, emits };
+                        let inner = TestFut { remaining: ready_after % 4, emits, panics };
                         let b: BoxFut = if lib {
                             Box::pin(tracing_futures::Instrument::instrument(inner, sp))
                         } else {
@@ -760,10 +799,10 @@ fn run_case(case: &Case) -> Outcome {
                     if matches!(h, H::On { .. }) {
                         n_clone += 1;
                     }
-                    m.futs[f] = Some(MFut { h, remaining: ready_after % 4, emits, done: false });
+                    m.futs[f] = Some(MFut { h, remaining: ready_after % 4, emits, done: false, panics: false });
                     let fl = futs.clone();
                     st.run(t, move |_| {
-                        let inner = TestFut { remaining: ready_after % 4, emits };
+                        let inner = TestFut { remaining: ready_after % 4, emits, panics: false };
                         let b: BoxFut = if lib {
                             Box::pin(tracing_futures::Instrument::in_current_span(inner))
                         } else {
@@ -780,10 +819,13 @@ fn run_case(case: &Case) -> Outcome {
                     skipped = true;
                     Ok(())
                 } else {
-                    let (h, emits, rem) = {
+                    let (h, emits, rem, panics) = {
                         let x = m.futs[f].as_ref().unwrap();
-                        (x.h, x.emits, x.remaining)
+                        (x.h, x.emits, x.remaining, x.panics)
                     };
+                    if panics {
+                        classes.push("poll_panicked".into());
+                    }
                     m.enter(h, t);
                     if emits {
                         m.event(t, "poll");
@@ -791,7 +833,7 @@ fn run_case(case: &Case) -> Outcome {
                     m.exit(h, t);
                     {
                         let x = m.futs[f].as_mut().unwrap();
-                        if rem == 0 {
+                        if rem == 0 || panics {
                             x.done = true;
                         } else {
                             x.remaining -= 1;
@@ -803,14 +845,20 @@ fn run_case(case: &Case) -> Outcome {
                         }
                     }
                     let fl = futs.clone();
-                    let want_ready = rem == 0;
+                    let want_ready = rem == 0 && !panics;
                     let r = st.run(t, move |_| {
                         let mut fu = fl.lock().unwrap()[f].take().unwrap();
                         let w = noop_waker();
                         let mut cx = Context::from_waker(&w);
-                        let ready = fu.as_mut().poll(&mut cx).is_ready();
+                        let res = std::panic::catch_unwind(std::panic::AssertUnwindSafe(|| fu.as_mut().poll(&mut cx).is_ready()));
                         fl.lock().unwrap()[f] = Some(fu);
-                        ready
+                        match res {
+                            Ok(ready) => ready,
+                            Err(_) => {
+                                assert!(panics, "poll panicked unexpectedly");
+                                false
+                            }
+                        }
                     });
                     match r {
                         Ok(ready) if ready != want_ready => fail!("instrumented future readiness", "poll returned ready={ready}, plain future would return ready={want_ready}"),
@@ -872,7 +920,7 @@ fn run_case(case: &Case) -> Outcome {
                     g.kind == w.kind
                         && g.thread == w.thread
                         && (w.kind == Kind::Event || g.id == w.id)
-                        && (matches!(w.kind, Kind::NewSpan | Kind::FollowsFrom) == false || g.id2 == w.id2)
+                        && (matches!(w.kind, Kind::NewSpan | Kind::FollowsFrom | Kind::CloneSpan) == false || g.id2 == w.id2)
                         && (w.kind != Kind::NewSpan || (g.name == w.name && g.fields == w.fields))
                         && (w.kind != Kind::Record || g.fields == w.fields)
                         && (w.kind != Kind::Event || (g.id2 == w.id2 && g.fields == w.fields))
@@ -905,26 +953,30 @@ fn run_case(case: &Case) -> Outcome {
         i += 1;
     }
 
-    // whole-program invariants, recomputed from the complete logs
+    // whole-program invariants, recomputed from the complete logs. An id is "issued" by the
+    // new_span that returned it or (fresh-id collectors) by the clone_span that returned it.
     for col in 0..2 {
         let log = &full[col];
-        let mut ids: Vec<u64> = log.iter().filter(|c| c.kind != Kind::Event).map(|c| c.id).collect();
+        let mut ids: Vec<u64> = log.iter().filter(|c| c.kind != Kind::Event).flat_map(|c| if c.kind == Kind::CloneSpan { vec![c.id, c.id2] } else { vec![c.id] }).collect();
         ids.sort();
         ids.dedup();
         for id in ids {
-            if id == 0xDEAD {
+            if id == 0xDEAD || id == 0 {
                 continue;
             }
-            let calls: Vec<&Call> = log.iter().filter(|c| c.kind != Kind::Event && c.id == id).collect();
             if RecCollector::owner_of(id) != col as u32 {
-                return Outcome::fail("call delivered to a collector that did not create the span", format!("collector {col} saw {}", describe(calls[0])));
+                return Outcome::fail("call delivered to a collector that did not create the span", format!("collector {col} saw a call for id {id:#x}"));
             }
+            // calls that are *about* this id (a clone_span is about its argument)
+            let calls: Vec<&Call> = log.iter().filter(|c| c.kind != Kind::Event && c.id == id).collect();
             let n = |k: Kind| calls.iter().filter(|c| c.kind == k).count();
-            if n(Kind::NewSpan) != 1 {
-                return Outcome::fail("new_span count", format!("id {id:#x}: {} new_span calls", n(Kind::NewSpan)));
+            let issued = n(Kind::NewSpan) + log.iter().filter(|c| c.kind == Kind::CloneSpan && c.id2 == id && c.id2 != c.id).count();
+            if issued != 1 {
+                return Outcome::fail("new_span count", format!("id {id:#x}: issued {issued} times"));
             }
-            if n(Kind::TryClose) != 1 + n(Kind::CloneSpan) {
-                return Outcome::fail("close count != 1 + clone count", format!("id {id:#x}: {} try_close, {} clone_span", n(Kind::TryClose), n(Kind::CloneSpan)));
+            let same_id_clones = calls.iter().filter(|c| c.kind == Kind::CloneSpan && c.id2 == c.id).count();
+            if n(Kind::TryClose) != 1 + same_id_clones {
+                return Outcome::fail("close count != 1 + clone count", format!("id {id:#x}: {} try_close, {} clone_span returning the same id", n(Kind::TryClose), same_id_clones));
             }
             if calls.last().map(|c| c.kind.clone()) != Some(Kind::TryClose) {
                 return Outcome::fail("call after the last close", format!("id {id:#x}: last call is {}", describe(calls.last().unwrap())));
@@ -951,6 +1003,9 @@ fn run_case(case: &Case) -> Outcome {
     }
     if n_clone > 0 {
         classes.push("has_clone".into());
+    }
+    if case.fresh_ids {
+        classes.push("collector_issues_fresh_id_per_clone".into());
     }
     for (b, n) in [(ooo_guard, "out_of_order_guard_drop"), (fut_mid, "future_dropped_before_completion"), (foreign_op, "op_under_foreign_or_no_default"), (cross_thread, "cross_thread_use")] {
         if b {
@@ -988,7 +1043,7 @@ impl Property for C03 {
         let f = || 0u8..NFUT as u8;
         let parent = prop_oneof![3 => Just(Parent::Contextual), 1 => Just(Parent::Root), 2 => s().prop_map(Parent::Explicit)];
         let sel = prop_oneof![3 => Just(Sel::A), 2 => Just(Sel::B), 1 => Just(Sel::NoDefault)];
-        let body = prop_oneof![Just(Body::Nothing), Just(Body::Event), (s(), 0u8..4).prop_map(|(to, cs)| Body::NewChild { to, cs }), s().prop_map(|to| Body::CurrentTo { to })];
+        let body = prop_oneof![Just(Body::Nothing), Just(Body::Event), Just(Body::Panic), (s(), 0u8..4).prop_map(|(to, cs)| Body::NewChild { to, cs }), s().prop_map(|to| Body::CurrentTo { to })];
         let cs = || prop_oneof![3 => Just(0u8), 2 => Just(1u8), 1 => Just(2u8), 2 => Just(3u8)];
         let op = prop_oneof![
             8 => (t(), s(), cs(), parent).prop_map(|(t, slot, cs, parent)| Op::New { t, slot, cs, parent }),
@@ -1005,18 +1060,18 @@ impl Property for C03 {
             3 => (t(), s()).prop_map(|(t, to)| Op::Current { t, to }),
             1 => (t(), s()).prop_map(|(t, slot)| Op::OrCurrent { t, slot }),
             2 => t().prop_map(|t| Op::Event { t }),
-            3 => (t(), s(), f(), any::<bool>(), 0u8..4, any::<bool>()).prop_map(|(t, slot, fut, lib, ready_after, emits)| Op::Instrument { t, slot, fut, lib, ready_after, emits }),
+            3 => (t(), s(), f(), any::<bool>(), 0u8..4, any::<bool>(), proptest::bool::weighted(0.2)).prop_map(|(t, slot, fut, lib, ready_after, emits, panics)| Op::Instrument { t, slot, fut, lib, ready_after, emits, panics }),
             1 => (t(), f(), any::<bool>(), 0u8..4, any::<bool>()).prop_map(|(t, fut, lib, ready_after, emits)| Op::InCurrentSpan { t, fut, lib, ready_after, emits }),
             4 => (t(), f()).prop_map(|(t, fut)| Op::Poll { t, fut }),
             2 => (t(), f()).prop_map(|(t, fut)| Op::DropFuture { t, fut }),
             3 => (t(), sel.clone()).prop_map(|(t, sel)| Op::SwitchDefault { t, sel }),
         ];
         let max = tier.pick(40usize, 60usize);
-        (proptest::collection::vec(sel, NT), proptest::collection::vec(op, 1..max))
-            .prop_map(|(sels, ops)| {
+        (proptest::collection::vec(sel, NT), proptest::collection::vec(op, 1..max), any::<bool>())
+            .prop_map(|(sels, ops, fresh_ids)| {
                 let mut all: Vec<Op> = sels.into_iter().enumerate().map(|(t, sel)| Op::SwitchDefault { t: t as u8, sel }).collect();
                 all.extend(ops);
-                Case { ops: all }
+                Case { ops: all, fresh_ids }
             })
             .boxed()
     }
